@@ -1,7 +1,9 @@
 package interp
 
 import (
+	"math"
 	"regexp"
+	"strings"
 
 	"github.com/benhoyt/goawk/internal/ast"
 )
@@ -68,10 +70,27 @@ func VerifC02SetSpecialStr() {
 		maxLen = verifBound(2, 3) // the two variables whose value is compiled as a regular expression
 	}
 	v := str(verifString(verifIntRange(0, maxLen)))
+	if (idx == ast.V_RS || idx == ast.V_FS) && verifIntRange(0, 1) == 1 {
+		// patterns that certainly do not compile (the contract stub leaves "syntax error" free, so a witness
+		// found through it need not be a real syntax error)
+		v = str([]string{"[[", "a(", "x**", "\\"}[verifIntRange(0, 3)])
+	}
 	verifKnown("C02-rs-invalid-utf8", idx == ast.V_RS)
 	err := p.setSpecial(idx, v)
 	verifReach("returned")
 	verifAssert(verifIsAwkError(err) || err != nil, "setSpecial must return nil or an error")
+	if err != nil && (idx == ast.V_RS || idx == ast.V_FS) {
+		// a rejected assignment must leave the interpreter usable (a host may catch the error and run again on
+		// the same Interpreter): read a record and split it into fields with whatever FS / RS are in force now
+		verifReach("rejected")
+		sc := p.newScanner(strings.NewReader("a b\nc d\n"), make([]byte, 64))
+		if sc.Scan() {
+			p.setLine(sc.Text(), false)
+			p.ensureFields()
+			verifAssert(len(p.fields) >= 1, "after a rejected FS / RS assignment the record can no longer be split")
+		}
+		verifAssert(p.fieldSep == " " && p.recordSep == "\n", "a rejected FS / RS assignment changed the variable all the same")
+	}
 }
 
 // the numeric special variables with every float64
@@ -103,8 +122,18 @@ func VerifC02DynamicRegex() {
 	p := &interp{regexCache: map[string]*regexp.Regexp{}, convertFormat: "%.6g"}
 	switch verifIntRange(0, 2) {
 	case 0:
+		if verifIntRange(0, 1) == 1 {
+			pat = []string{"[[", "a(", "x**", "\\"}[verifIntRange(0, 3)] // certainly invalid (see VerifC02SetSpecialStr)
+		}
 		_, err := p.compileRegex(pat)
 		verifAssert(verifIsAwkError(err), "compileRegex returned a foreign error")
+		// the same pattern again on the same interpreter (a later run of a reused Interpreter): same verdict, and a
+		// regexp that is returned without an error can be used
+		re2, err2 := p.compileRegex(pat)
+		verifAssert((err == nil) == (err2 == nil), "compiling the same dynamic regex twice gives an error once and none the other time")
+		if err2 == nil {
+			re2.MatchString("abc")
+		}
 	case 1:
 		_, _, err := p.sub(pat, "x", "abc", true)
 		verifAssert(verifIsAwkError(err), "gsub with an invalid regex returned a foreign error")
@@ -181,4 +210,63 @@ func VerifC02StackGrowth() {
 	err := p.execute(prog.Compiled.Begin)
 	verifAssert(err == nil && p.sp == 0, "a call with many unpassed locals failed or left the stack unbalanced")
 	verifAssert(verifGlobal(p, "r").s == "|"+verifItoa(depth), "locals that were not passed are not null, or the result was lost")
+}
+
+// builtin functions with numeric arguments of any value (NaN, infinities, huge, negative, fractional): no panic
+func VerifC02BuiltinNumbers() {
+	s := verifString(verifIntRange(0, 1))
+	progs := []string{
+		`BEGIN { r = substr(s, x) }`, `BEGIN { r = substr(s, x, y) }`, `BEGIN { r = int(x) }`,
+		`BEGIN { r = sprintf("%c|%d", x, y) }`, `BEGIN { r = sprintf("%x|%u", x, y) }`, `BEGIN { r = sprintf("%*d", x, 1) }`, `BEGIN { r = sprintf("%.*f", x, y) }`,
+		`BEGIN { $x = s }`, `BEGIN { r = $x }`, `BEGIN { r = x % y; r = x ^ y }`, `BEGIN { NF = x }`, `BEGIN { r = substr(s, x, y) substr(s, y) }`,
+		`BEGIN { exit x }`, `BEGIN { r = atan2(x, y) + sin(x) + cos(y) + exp(x) + log(y) + sqrt(x) }`, `BEGIN { $(x) = $(y) }`, `BEGIN { $x++; $y += 2 }`,
+	}
+	i := verifIntRange(0, len(progs)-1)
+	// awkward values for both operands; for substr and the * width / precision one operand is any float64
+	awkward := []float64{math.NaN(), math.Inf(1), math.Inf(-1), 1e300, -1e300, 2.5, 0, -1, 9.3e18, -9.3e18}
+	x, y := awkward[verifIntRange(0, 9)], awkward[verifIntRange(0, 9)]
+	if i == 0 || i == 1 || i == 5 || i == 6 {
+		if verifIntRange(0, 1) == 1 {
+			x = verifFloat64()
+		} else {
+			y = verifFloat64()
+		}
+	}
+	prog := verifParse(progs[i])
+	p := newInterp(prog)
+	p.chars = verifIntRange(0, 1) == 1
+	p.setLine("a b", false)
+	for name, v := range map[string]value{"x": num(x), "y": num(y), "s": str(s)} {
+		if idx, ok := p.scalarIndexes[name]; ok {
+			p.globals[idx] = v
+		}
+	}
+	err := p.execute(prog.Compiled.Begin)
+	verifReach("returned")
+	// run-time errors are fine (field index out of range, division by zero, ...); panics are reported by the engine
+	if err != nil {
+		_, isErr := err.(*Error)
+		verifAssert(isErr || err == errExit, "a builtin given an unusual number failed with something other than an AWK run-time error")
+	}
+}
+
+// printf / sprintf with every short format string: an error or a result, never a panic
+func VerifC02Formats() {
+	n := verifIntRange(0, verifBound(3, 4))
+	format := verifString(n)
+	p := &interp{formatCache: map[string]cachedFormat{}, convertFormat: "%.6g", chars: verifBool()}
+	args := []value{num(1), str("s"), num(-2.5)}[:verifIntRange(0, 3)]
+	_, err := p.sprintf(format, args)
+	verifReach("returned")
+	verifAssert(verifIsAwkError(err), "sprintf returned an error that is not an *interp.Error")
+}
+
+// more live local arrays than any preallocated table holds: deep recursion with a fresh local array per frame
+func VerifC02DeepLocalArrays() {
+	depth := []int{3, 99, 100, 101, 150}[verifIntRange(0, 4)]
+	prog := verifParse("function f(n, loc) { loc[n] = n; if (n < " + verifItoa(depth) + ") return f(n + 1) + loc[n]; return loc[n] }\nBEGIN { r = f(0) }")
+	p := newInterp(prog)
+	err := p.execute(prog.Compiled.Begin)
+	verifAssert(err == nil && p.sp == 0, "deep recursion with a local array per frame failed or left the stack unbalanced")
+	verifAssert(verifGlobal(p, "r").n == float64(depth*(depth+1)/2), "a local array of an outer frame was disturbed by the frames below it")
 }
